@@ -11,7 +11,9 @@ whole value of a return, or the whole test of an if / while (possibly under `not
   * `self.<name>(..)` / `cls.<name>(..)` / `<Class>.<name>(..)` -- a method of the same class (by-name MRO) defined in the same file, or
   * `<name>(..)` -- a module-level function of the same file whose name starts with an underscore,
 
-is not a generator, takes no *args/**kwargs at the call site, and is not the function itself.
+is not a generator, takes no *args/**kwargs at the call site, is not the function itself, and is *new*: it is not listed in
+ref/functions.json, the inventory of the functions of the reviewed tree (helpers that existed when the rules were written are
+anchors the rules know by name -- `__cut_add_vertex`, `mapper.R` -- and stay calls).
 
 How: parameters are replaced by the argument expressions when those are side-effect free (names, attributes, constants,
 subscripts of those), otherwise bound to fresh temporaries first; the callee's own locals get a suffix; `return e` becomes
@@ -47,6 +49,24 @@ def _is_generator(fn):
     return False
 
 
+_KNOWN = None
+
+
+def _known():
+    global _KNOWN
+    if _KNOWN is None:
+        import json, os
+        from . import VERIF
+
+        try:
+            with open(os.path.join(VERIF, "ref", "functions.json")) as fh:
+                inv = json.load(fh)["functions"]
+        except OSError:
+            inv = {}
+        _KNOWN = {(rel, q) for rel, qs in inv.items() for q in qs}
+    return _KNOWN
+
+
 def _callee(repo, f, call):
     """FuncInfo of an inlinable callee, with the receiver expression (or None), or None"""
     fn = call.func
@@ -67,6 +87,8 @@ def _callee(repo, f, call):
         return None
     if g.name.startswith("__") and g.name.endswith("__"):
         return None
+    if (g.mod.rel, g.dqual) in _known():
+        return None  # a helper that existed when the rules were written: the rules know it by name
     if _is_generator(g.node):
         return None
     decos = {ast.unparse(d) for d in g.node.decorator_list}
